@@ -15,6 +15,30 @@ fn main() {
         for (n, _) in vharness::native_registry() { println!("native:{}", n); }
         return;
     }
+    if args[1] == "--case" {
+        // replay --case <native harness> <d0,d1,...>: run exactly one choice vector of a native bounded harness
+        let name = &args[2];
+        let digits: Vec<usize> = if args.len() > 3 { args[3].split(',').filter(|x| !x.trim().is_empty()).map(|x| x.trim().parse().unwrap_or(0)).collect() } else { Vec::new() };
+        for (n, f) in vharness::native_registry() {
+            if n == name {
+                let mut s = vharness::src::EnumSrc::new();
+                s.radix = vec![usize::MAX; digits.len()];
+                s.digits = digits.clone();
+                let r = catch_unwind(AssertUnwindSafe(|| f(&mut s)));
+                match r {
+                    Ok(()) => { println!("CASE-COMPLETED harness={} choice_vector={:?}: all assertions held", name, digits); return; }
+                    Err(e) => {
+                        if e.downcast_ref::<vharness::src::Rejected>().is_some() { println!("CASE-REJECTED: the choice vector violates an assumption of the harness"); std::process::exit(3); }
+                        let msg = e.downcast_ref::<&str>().map(|x| x.to_string()).or(e.downcast_ref::<String>().cloned()).unwrap_or_default();
+                        println!("CASE-FAILED harness={} choice_vector={:?} message={}", name, digits, msg);
+                        std::process::exit(101);
+                    }
+                }
+            }
+        }
+        eprintln!("unknown native harness {}", name);
+        std::process::exit(2);
+    }
     if args[1] == "--enum" {
         let name = &args[2];
         let max: u64 = if args.len() > 3 { args[3].parse().unwrap_or(2_000_000) } else { 2_000_000 };
